@@ -42,74 +42,144 @@ type Hdr struct {
 // DefaultHdr is HttpGate!DefaultHdr (used for witnesses that do not say).
 var DefaultHdr = Hdr{Accept: "-", Ctype: "application/json", Override: "-", Body: true}
 
-// Case is one case printed by TLC (HttpGateMC EmitInv).
+// Req is a request as the specification prints it.
+type Req struct {
+	M      string   `json:"m"`
+	T      string   `json:"t"`
+	Sps    []string `json:"sps"`
+	H      Hdr      `json:"h"`
+	Target string   `json:"target"`
+}
+
+func (r Req) key() string {
+	return fmt.Sprintf("%s|%s|%s|%s|%s|%s|%v", r.T, strings.Join(r.Sps, ","), r.M, r.H.Accept, r.H.Ctype, r.H.Override, r.H.Body)
+}
+
+// Case is one single-request case printed by TLC (HttpGateMC EmitInv).
 type Case struct {
-	M      string   `json:"m"`
-	T      string   `json:"t"`
-	Sps    []string `json:"sps"`
-	W      bool     `json:"w"`
-	H      Hdr      `json:"h"`
-	Target string   `json:"target"`
-	Raw    []string `json:"raw,omitempty"`
-	Dec    []string `json:"dec,omitempty"`
-	Exp    []Resp   `json:"exp,omitempty"`
+	Req
+	W     bool     `json:"w"`
+	Stack string   `json:"stack"`
+	Raw   []string `json:"raw,omitempty"`
+	Dec   []string `json:"dec,omitempty"`
+	Exp   []Resp   `json:"exp,omitempty"`
 }
 
-// Line is one trace line: the case and what was observed each time it was sent.
-type Line struct {
-	M      string   `json:"m"`
-	T      string   `json:"t"`
-	Sps    []string `json:"sps"`
-	W      bool     `json:"w"`
-	H      Hdr      `json:"h"`
-	Target string   `json:"target"`
-	Obs    []Obs    `json:"obs"`
+func (c Case) key() string { return fmt.Sprintf("%s|%v|%s", c.Req.key(), c.W, c.Stack) }
+
+// Multi is a history (HttpGateHist HEmitInv) or a concurrent pair (HttpGateConc CEmitInv).
+type Multi struct {
+	W     bool   `json:"w"`
+	Stack string `json:"stack"`
+	Reqs  []Req  `json:"reqs"`
 }
 
-func (c Case) key() string {
-	return fmt.Sprintf("%s|%s|%s|%v|%s|%s|%s|%v", c.T, strings.Join(c.Sps, ","), c.M, c.W, c.H.Accept, c.H.Ctype, c.H.Override, c.H.Body)
+func (m Multi) key() string {
+	k := fmt.Sprintf("%s|%v", m.Stack, m.W)
+	for _, r := range m.Reqs {
+		k += "||" + r.key()
+	}
+	return k
+}
+
+// CaseLine, HistLine, ConcLine are the three kinds of trace line (HttpGateTrace).
+type CaseLine struct {
+	K     string `json:"k"`
+	Stack string `json:"stack"`
+	W     bool   `json:"w"`
+	Req
+	Obs []Obs `json:"obs"`
+}
+
+type HistLine struct {
+	K     string `json:"k"`
+	Stack string `json:"stack"`
+	W     bool   `json:"w"`
+	Reqs  []Req  `json:"reqs"`
+	Obs   []Obs  `json:"obs"`
+	Ref   []Obs  `json:"ref"`
+}
+
+type ConcLine struct {
+	K     string   `json:"k"`
+	Stack string   `json:"stack"`
+	W     bool     `json:"w"`
+	Reqs  []Req    `json:"reqs"`
+	Obs   [][]Obs  `json:"obs"`
+	Eff   []string `json:"eff"`
+	N     []int    `json:"n"`
 }
 
 // plan of one universe (one seeded choice of parameter values and tokens)
 type plan struct {
-	maxSpell int  // length of spelling sequences
-	reps     int  // how often each request is sent (each time to another server instance)
-	hdr      bool // cross the header classes with the documented spelling
+	stacks   []string // handler stacks of the single-request domain
+	maxSpell int      // length of spelling sequences
+	reps     int      // how often each request is sent (each time to another server instance)
+	hdr      bool     // cross the header classes with the documented spelling
+	// histories on one instance
+	histDepth     int
+	histSpellings []string
+	histHdr       bool
+	histStacks    []string
+	// concurrency
+	concW      []bool
+	concAll    bool
+	concStacks []string
+	concDur    time.Duration
 }
+
+var bothStacks = []string{"server", "gate"}
 
 func plansFor(thorough bool) []plan {
 	if thorough {
-		return []plan{{maxSpell: 3, reps: 3, hdr: true}, {maxSpell: 2, reps: 5, hdr: true}, {maxSpell: 2, reps: 5, hdr: true}}
+		return []plan{
+			{stacks: bothStacks, maxSpell: 2, reps: 3, hdr: true,
+				histDepth: 2, histSpellings: []string{"exact", "encodedLetter", "trailingSlash", "query"}, histHdr: true, histStacks: bothStacks,
+				concW: []bool{false, true}, concAll: true, concStacks: bothStacks, concDur: 3 * time.Second},
+			{stacks: []string{"server"}, maxSpell: 3, reps: 3, hdr: true,
+				histDepth: 3, histSpellings: []string{"exact"}, histStacks: []string{"gate"}},
+			{stacks: bothStacks, maxSpell: 2, reps: 5, hdr: true,
+				histDepth: 2, histSpellings: []string{"exact", "upperCase"}, histStacks: bothStacks,
+				concW: []bool{false}, concStacks: bothStacks, concDur: 5 * time.Second},
+		}
 	}
-	return []plan{{maxSpell: 1, reps: 3, hdr: true}, {maxSpell: 2, reps: 2}}
+	return []plan{
+		{stacks: bothStacks, maxSpell: 1, reps: 2, hdr: true,
+			histDepth: 2, histSpellings: []string{"exact"}, histStacks: bothStacks,
+			concW: []bool{false}, concStacks: bothStacks, concDur: 1500 * time.Millisecond},
+		{stacks: []string{"server"}, maxSpell: 2, reps: 2},
+	}
 }
 
-func mcModule() (string, []byte) {
-	name := "MCgen_http"
-	return name, []byte(fmt.Sprintf("---- MODULE %s ----\nEXTENDS HttpGateMC, %s\n====\n", name, ConstModule))
+func genModule(base string) (string, []byte) {
+	name := "GEN_" + base
+	return name, []byte(fmt.Sprintf("---- MODULE %s ----\nEXTENDS %s, %s\n====\n", name, base, ConstModule))
 }
 
-func trModule() (string, []byte) {
-	name := "TRgen_http"
-	return name, []byte(fmt.Sprintf("---- MODULE %s ----\nEXTENDS HttpGateTrace, %s\n====\n", name, ConstModule))
+func tlaBoolSet(bs []bool) string {
+	var o []string
+	for _, b := range bs {
+		o = append(o, tlaBool(b))
+	}
+	return "{" + strings.Join(o, ", ") + "}"
 }
 
-// Gen is the result of the model-checking / generation run.
+// Gen is the result of the model-checking / generation runs of one universe.
 type Gen struct {
 	U        *Universe
+	P        plan
 	Cases    []Case
+	Hists    []Multi
+	Concs    []Multi
 	States   int
 	Distinct int
-	SpecViol string
+	SpecViol []string
 	Wall     float64
+	Runs     []map[string]any
 }
 
-// Generate has TLC check the property layer on the code-shaped spec over the whole request
-// domain and print every case.
-func Generate(c *core.Ctx, u *Universe, maxSpell int, hdr bool) (*Gen, error) {
-	mod, body := mcModule()
-	cfg := ConstCfg(Methods, Spellings, maxSpell, hdr) +
-		"SPECIFICATION Spec\nINVARIANT GateInv\nINVARIANT LiveInv\nINVARIANT DetInv\nINVARIANT AgreeInv\nINVARIANT EmitInv\nCHECK_DEADLOCK FALSE\n"
+func runMC(c *core.Ctx, u *Universe, base, cfg string, g *Gen) (*tlc.Result, error) {
+	mod, body := genModule(base)
 	res, err := tlc.Run(tlc.Opts{
 		Module: mod, CfgText: cfg, Workers: c.Workers, Timeout: 20 * time.Minute, HeapGB: 8,
 		Files: map[string][]byte{mod + ".tla": body, ConstModule + ".tla": u.TLA()},
@@ -118,35 +188,57 @@ func Generate(c *core.Ctx, u *Universe, maxSpell int, hdr bool) (*Gen, error) {
 	if err != nil {
 		return nil, err
 	}
-	g := &Gen{U: u, States: res.States, Distinct: res.Distinct, Wall: res.Wall.Seconds()}
 	if res.Errored != "" || res.TimedOut || res.Distinct == 0 {
-		return nil, fmt.Errorf("TLC did not complete: %s\n%s", res.Errored, res.Tail(30))
+		return nil, fmt.Errorf("TLC (%s) did not complete: %s\n%s", base, res.Errored, res.Tail(30))
 	}
 	if res.Violation {
-		g.SpecViol = res.ViolatedWhat
+		g.SpecViol = append(g.SpecViol, base+": "+res.ViolatedWhat)
 	} else if !res.Completed {
-		return nil, fmt.Errorf("TLC did not complete:\n%s", res.Tail(30))
+		return nil, fmt.Errorf("TLC (%s) did not complete:\n%s", base, res.Tail(30))
 	}
+	g.States += res.States
+	g.Distinct += res.Distinct
+	g.Wall += res.Wall.Seconds()
+	g.Runs = append(g.Runs, map[string]any{"module": base, "states_generated": res.States, "distinct_states": res.Distinct, "wall_s": res.Wall.Seconds()})
+	return res, nil
+}
+
+func decodeTagged[T any](res *tlc.Result, tag string, key func(T) string) ([]T, error) {
+	var out []T
 	seen := map[string]bool{}
-	for _, raw := range res.Tagged["CASE"] {
+	for _, raw := range res.Tagged[tag] {
 		s, err := tlc.UnquoteTLA(raw)
 		if err != nil {
 			return nil, err
 		}
-		var cs Case
-		if err := json.Unmarshal([]byte(s), &cs); err != nil {
-			return nil, fmt.Errorf("case %q: %v", s, err)
+		var v T
+		if err := json.Unmarshal([]byte(s), &v); err != nil {
+			return nil, fmt.Errorf("%s %q: %v", tag, s, err)
 		}
-		if seen[cs.key()] {
-			continue
+		if k := key(v); !seen[k] {
+			seen[k] = true
+			out = append(out, v)
 		}
-		seen[cs.key()] = true
-		g.Cases = append(g.Cases, cs)
+	}
+	sort.Slice(out, func(i, j int) bool { return key(out[i]) < key(out[j]) })
+	return out, nil
+}
+
+// Generate has TLC check the property layer on the code-shaped spec (single requests, histories
+// on one instance, concurrent pairs) and print every case.
+func Generate(c *core.Ctx, u *Universe, p plan) (*Gen, error) {
+	g := &Gen{U: u, P: p}
+	res, err := runMC(c, u, "HttpGateMC", ConstCfg(Methods, Spellings, p.maxSpell, p.hdr, p.stacks)+
+		"SPECIFICATION Spec\nINVARIANT GateInv\nINVARIANT LiveInv\nINVARIANT DetInv\nINVARIANT AgreeInv\nINVARIANT EmitInv\nCHECK_DEADLOCK FALSE\n", g)
+	if err != nil {
+		return nil, err
+	}
+	if g.Cases, err = decodeTagged(res, "CASE", Case.key); err != nil {
+		return nil, err
 	}
 	if len(g.Cases) == 0 {
 		return nil, errNoCases
 	}
-	sort.Slice(g.Cases, func(i, j int) bool { return g.Cases[i].key() < g.Cases[j].key() })
 	// binding self-check: the views of the path the spec reasons about are the views net/url
 	// gives for the target the spec printed
 	for _, cs := range g.Cases {
@@ -166,7 +258,44 @@ func Generate(c *core.Ctx, u *Universe, maxSpell int, hdr bool) (*Gen, error) {
 			return nil, fmt.Errorf("case %s target %q: chi would route on %q, the spec on %q", cs.key(), cs.Target, chiView, "/"+strings.Join(cs.Raw, "/"))
 		}
 	}
+	if p.histDepth > 0 {
+		cfg := ConstCfg(Methods, Spellings, 1, false, p.histStacks) +
+			fmt.Sprintf("  HistSpellings = %s\n  HistDepth = %d\n  HistHdrCross = %s\n  MwState = %q\n", qset(p.histSpellings), p.histDepth, tlaBool(p.histHdr), envOr("VERIF_C18_MWSTATE", "none")) +
+			"SPECIFICATION HSpec\nINVARIANT HGateInv\nINVARIANT HLiveInv\nINVARIANT HDetInv\nINVARIANT HEmitInv\nCHECK_DEADLOCK FALSE\n"
+		res, err := runMC(c, u, "HttpGateHist", cfg, g)
+		if err != nil {
+			return nil, err
+		}
+		if g.Hists, err = decodeTagged(res, "HIST", Multi.key); err != nil {
+			return nil, err
+		}
+		if len(g.Hists) == 0 {
+			return nil, fmt.Errorf("TLC printed no history")
+		}
+	}
+	if len(p.concW) > 0 {
+		cfg := ConstCfg(Methods, Spellings, 1, false, p.concStacks) +
+			fmt.Sprintf("  ConcW = %s\n  ConcAll = %s\n  MwShare = %q\n", tlaBoolSet(p.concW), tlaBool(p.concAll), envOr("VERIF_C18_MWSHARE", "local")) +
+			"SPECIFICATION CSpec\nINVARIANT CGateInv\nINVARIANT CLiveInv\nINVARIANT CIndepInv\nINVARIANT CEmitInv\nCHECK_DEADLOCK FALSE\n"
+		res, err := runMC(c, u, "HttpGateConc", cfg, g)
+		if err != nil {
+			return nil, err
+		}
+		if g.Concs, err = decodeTagged(res, "CONC", Multi.key); err != nil {
+			return nil, err
+		}
+		if len(g.Concs) == 0 {
+			return nil, fmt.Errorf("TLC printed no concurrent pair")
+		}
+	}
 	return g, nil
+}
+
+func envOr(name, def string) string {
+	if v := os.Getenv(name); v != "" {
+		return v
+	}
+	return def
 }
 
 // VResult is the RESULT record printed by HttpGateTrace.
@@ -177,9 +306,9 @@ type VResult struct {
 }
 
 // ValidateTrace runs pass A + pass B on one trace.
-func ValidateTrace(u *Universe, maxSpell int, trace []byte) (*VResult, error) {
-	mod, body := trModule()
-	cfg := ConstCfg(Methods, Spellings, maxSpell, false) + "  TraceFile = \"trace.ndjson\"\nSPECIFICATION TSpec\nINVARIANT Done\nCHECK_DEADLOCK FALSE\n"
+func ValidateTrace(u *Universe, trace []byte) (*VResult, error) {
+	mod, body := genModule("HttpGateTrace")
+	cfg := ConstCfg(Methods, Spellings, 1, false, bothStacks) + "  TraceFile = \"trace.ndjson\"\nSPECIFICATION TSpec\nINVARIANT Done\nCHECK_DEADLOCK FALSE\n"
 	res, err := tlc.Run(tlc.Opts{
 		Module: mod, CfgText: cfg, Workers: 1, Timeout: 20 * time.Minute, HeapGB: 4,
 		Files: map[string][]byte{mod + ".tla": body, ConstModule + ".tla": u.TLA(), "trace.ndjson": trace},
@@ -197,10 +326,11 @@ func ValidateTrace(u *Universe, maxSpell int, trace []byte) (*VResult, error) {
 	return &vr, nil
 }
 
-// Finding is a monitor that failed on an observed case.
+// Finding is a monitor that failed on an observed line.
 type Finding struct {
-	Monitor string `json:"monitor"`
-	Line    Line   `json:"line"`
+	Monitor string          `json:"monitor"`
+	Kind    string          `json:"kind"`
+	Line    json.RawMessage `json:"line"`
 }
 
 // Outcome of replaying and validating the cases of one universe.
@@ -210,33 +340,67 @@ type Outcome struct {
 	Lines     int
 	Traces    int
 	Findings  []Finding
-	Drift     []Line
+	Drift     []json.RawMessage
 	Stages    map[string]int
 	Effects   map[string]int
+	Kinds     map[string]int
 	Nontriv   int
 	Samples   []any
 	ReplayS   float64
 	ValidateS float64
 }
 
-// runCases sends every case reps times, each repetition to a different server instance.
-func runCases(cases []Case, body string, reps, workers int) ([]Line, int, error) {
-	lines := make([]Line, len(cases))
-	var firstErr error
-	var mu sync.Mutex
+type errBox struct {
+	mu  sync.Mutex
+	err error
+}
+
+func (e *errBox) set(err error) {
+	e.mu.Lock()
+	if e.err == nil && err != nil {
+		e.err = err
+	}
+	e.mu.Unlock()
+}
+
+func parallel(n, workers int, f func(i int)) {
+	if workers > n {
+		workers = n
+	}
+	if workers < 1 {
+		workers = 1
+	}
 	var wg sync.WaitGroup
+	for w := 0; w < workers; w++ {
+		wg.Add(1)
+		go func(w int) {
+			defer wg.Done()
+			for i := w; i < n; i += workers {
+				f(i)
+			}
+		}(w)
+	}
+	wg.Wait()
+}
+
+// runCases sends every single-request case reps times, each repetition to another server instance.
+func runCases(cases []Case, body string, reps, workers int) ([]CaseLine, int, error) {
+	lines := make([]CaseLine, len(cases))
+	var eb errBox
+	var mu sync.Mutex
+	requests := 0
 	if workers > len(cases) {
 		workers = len(cases)
 	}
 	if workers < 1 {
 		workers = 1
 	}
-	requests := 0
+	var wg sync.WaitGroup
 	for w := 0; w < workers; w++ {
 		wg.Add(1)
 		go func(w int) {
 			defer wg.Done()
-			gates := map[bool][]*Gate{}
+			gates := map[string][]*Gate{}
 			defer func() {
 				for _, gs := range gates {
 					for _, g := range gs {
@@ -244,19 +408,16 @@ func runCases(cases []Case, body string, reps, workers int) ([]Line, int, error)
 					}
 				}
 			}()
-			for _, write := range []bool{false, true} {
-				for r := 0; r < reps; r++ {
-					g, err := NewGate(write)
+			get := func(write bool, stack string, r int) (*Gate, error) {
+				k := fmt.Sprintf("%v|%s", write, stack)
+				for len(gates[k]) <= r {
+					g, err := NewGate(write, stack)
 					if err != nil {
-						mu.Lock()
-						if firstErr == nil {
-							firstErr = err
-						}
-						mu.Unlock()
-						return
+						return nil, err
 					}
-					gates[write] = append(gates[write], g)
+					gates[k] = append(gates[k], g)
 				}
+				return gates[k][r], nil
 			}
 			n := 0
 			for i := w; i < len(cases); i += workers {
@@ -264,23 +425,27 @@ func runCases(cases []Case, body string, reps, workers int) ([]Line, int, error)
 				if cs.H.Ctype == "" {
 					cs.H = DefaultHdr
 				}
-				ln := Line{M: cs.M, T: cs.T, Sps: cs.Sps, W: cs.W, H: cs.H, Target: cs.Target, Obs: []Obs{}}
+				if cs.Stack == "" {
+					cs.Stack = "server"
+				}
+				ln := CaseLine{K: "case", Stack: cs.Stack, W: cs.W, Req: cs.Req, Obs: []Obs{}}
 				for r := 0; r < reps; r++ {
-					ob, err := gates[cs.W][r].Do(cs.M, cs.Target, body, cs.H)
+					g, err := get(cs.W, cs.Stack, r)
 					if err != nil {
-						mu.Lock()
-						if firstErr == nil {
-							firstErr = err
-						}
-						mu.Unlock()
+						eb.set(err)
+						return
+					}
+					ob, err := g.Do(cs.M, cs.Target, body, cs.H)
+					if err != nil {
+						eb.set(err)
 						return
 					}
 					n++
 					ln.Obs = append(ln.Obs, ob)
 					if ob.Panic == "hang" {
 						// the handler of that server is still blocked: use a new one
-						if g, err := NewGate(cs.W); err == nil {
-							gates[cs.W][r] = g
+						if g2, err := NewGate(cs.W, cs.Stack); err == nil {
+							gates[fmt.Sprintf("%v|%s", cs.W, cs.Stack)][r] = g2
 						}
 					}
 				}
@@ -313,50 +478,172 @@ func runCases(cases []Case, body string, reps, workers int) ([]Line, int, error)
 			}
 		}
 	}
-	return lines, requests, firstErr
+	return lines, requests, eb.err
 }
 
-func encodeLines(lines []Line) []byte {
-	var buf bytes.Buffer
-	for _, l := range lines {
-		b, _ := json.Marshal(l)
-		buf.Write(b)
-		buf.WriteByte('\n')
+// runHists serves every history on ONE fresh instance, and pairs each request with the
+// decision the same request gets as the first request of another fresh instance.
+func runHists(hists []Multi, body string, workers int) ([]HistLine, int, error) {
+	var eb errBox
+	serveOn := func(m Multi, reqs []Req) ([]Obs, error) {
+		g, err := NewGate(m.W, m.Stack)
+		if err != nil {
+			return nil, err
+		}
+		defer g.Close()
+		var obs []Obs
+		for _, r := range reqs {
+			ob, err := g.Do(r.M, r.Target, body, r.H)
+			if err != nil {
+				return nil, err
+			}
+			obs = append(obs, ob)
+			if ob.Panic == "hang" {
+				break
+			}
+		}
+		return obs, nil
 	}
-	return buf.Bytes()
+	// references
+	refIdx := map[string]int{}
+	var refReqs []Multi
+	for _, h := range hists {
+		for _, r := range h.Reqs {
+			k := fmt.Sprintf("%v|%s|%s", h.W, h.Stack, r.key())
+			if _, ok := refIdx[k]; !ok {
+				refIdx[k] = len(refReqs)
+				refReqs = append(refReqs, Multi{W: h.W, Stack: h.Stack, Reqs: []Req{r}})
+			}
+		}
+	}
+	refs := make([]Obs, len(refReqs))
+	parallel(len(refReqs), workers, func(i int) {
+		obs, err := serveOn(refReqs[i], refReqs[i].Reqs)
+		if err != nil || len(obs) != 1 {
+			eb.set(fmt.Errorf("reference request: %v", err))
+			return
+		}
+		refs[i] = obs[0]
+	})
+	if eb.err != nil {
+		return nil, 0, eb.err
+	}
+	lines := make([]HistLine, len(hists))
+	var mu sync.Mutex
+	requests := len(refReqs)
+	parallel(len(hists), workers, func(i int) {
+		h := hists[i]
+		obs, err := serveOn(h, h.Reqs)
+		if err != nil {
+			eb.set(err)
+			return
+		}
+		for len(obs) < len(h.Reqs) { // after a hang the rest was not sent
+			obs = append(obs, Obs{Effect: "Hang", Panic: "hang"})
+		}
+		ln := HistLine{K: "hist", Stack: h.Stack, W: h.W, Reqs: h.Reqs, Obs: obs, Ref: []Obs{}}
+		for _, r := range h.Reqs {
+			ln.Ref = append(ln.Ref, refs[refIdx[fmt.Sprintf("%v|%s|%s", h.W, h.Stack, r.key())]])
+		}
+		lines[i] = ln
+		mu.Lock()
+		requests += len(h.Reqs)
+		mu.Unlock()
+	})
+	return lines, requests, eb.err
 }
 
-// ReplayAndValidate sends the cases to the real router and has TLC validate the trace.
-func ReplayAndValidate(c *core.Ctx, g *Gen, p plan, witnesses []Case) (*Outcome, error) {
-	out := &Outcome{Gen: g, Stages: map[string]int{}, Effects: map[string]int{}}
+// runConcs hammers one fresh instance per pair with both requests at once.
+func runConcs(concs []Multi, body string, dur time.Duration, workers int) ([]ConcLine, int, error) {
+	var eb errBox
+	lines := make([]ConcLine, len(concs))
+	var mu sync.Mutex
+	requests := 0
+	// few pairs at a time: the goroutines of one pair must really run in parallel
+	par := workers / 8
+	if par < 1 {
+		par = 1
+	}
+	parallel(len(concs), par, func(i int) {
+		m := concs[i]
+		g, err := NewGate(m.W, m.Stack)
+		if err != nil {
+			eb.set(err)
+			return
+		}
+		defer g.Close()
+		res, err := g.Stress([2]Req{m.Reqs[0], m.Reqs[1]}, body, 4, 4, dur, !m.W)
+		if err != nil {
+			eb.set(err)
+			return
+		}
+		lines[i] = ConcLine{K: "conc", Stack: m.Stack, W: m.W, Reqs: m.Reqs, Obs: [][]Obs{res.Obs[0], res.Obs[1]}, Eff: res.Eff, N: []int{res.N[0], res.N[1]}}
+		mu.Lock()
+		requests += res.N[0] + res.N[1]
+		mu.Unlock()
+	})
+	return lines, requests, eb.err
+}
+
+// ReplayAndValidate sends everything TLC printed to real router instances and has TLC validate
+// the trace.
+func ReplayAndValidate(c *core.Ctx, g *Gen, witnesses []Case) (*Outcome, error) {
+	out := &Outcome{Gen: g, Stages: map[string]int{}, Effects: map[string]int{}, Kinds: map[string]int{}}
+	p := g.P
 	cases := append(append([]Case{}, witnesses...), g.Cases...)
 	t0 := time.Now()
-	lines, requests, err := runCases(cases, g.U.Body, p.reps, c.Workers)
+	clines, n1, err := runCases(cases, g.U.Body, p.reps, c.Workers)
 	if err != nil {
 		return nil, err
 	}
-	out.Requests = requests
+	hlines, n2, err := runHists(g.Hists, g.U.Body, c.Workers)
+	if err != nil {
+		return nil, err
+	}
+	klines, n3, err := runConcs(g.Concs, g.U.Body, p.concDur, c.Workers)
+	if err != nil {
+		return nil, err
+	}
+	out.Requests = n1 + n2 + n3
+	out.Kinds["case"], out.Kinds["hist"], out.Kinds["conc"] = len(clines), len(hlines), len(klines)
+	out.Kinds["requests_case"], out.Kinds["requests_hist"], out.Kinds["requests_conc"] = n1, n2, n3
 	out.ReplayS = time.Since(t0).Seconds()
+	var raw []json.RawMessage
+	var kinds []string
+	add := func(kind string, v any) {
+		b, _ := json.Marshal(v)
+		raw = append(raw, b)
+		kinds = append(kinds, kind)
+	}
+	for _, l := range clines {
+		add("case", l)
+	}
+	for _, l := range hlines {
+		add("hist", l)
+	}
+	for _, l := range klines {
+		add("conc", l)
+	}
 	t1 := time.Now()
 	// validate in chunks (one TLC process per chunk)
 	nch := c.Workers
 	if nch > 8 {
 		nch = 8
 	}
-	if len(lines) < 400*nch {
-		nch = 1 + len(lines)/400
+	if len(raw) < 400*nch {
+		nch = 1 + len(raw)/400
 	}
-	per := (len(lines) + nch - 1) / nch
+	per := (len(raw) + nch - 1) / nch
 	type chunk struct {
 		from, to int
 		vr       *VResult
 		err      error
 	}
 	var chunks []*chunk
-	for i := 0; i < len(lines); i += per {
+	for i := 0; i < len(raw); i += per {
 		j := i + per
-		if j > len(lines) {
-			j = len(lines)
+		if j > len(raw) {
+			j = len(raw)
 		}
 		chunks = append(chunks, &chunk{from: i, to: j})
 	}
@@ -365,7 +652,12 @@ func ReplayAndValidate(c *core.Ctx, g *Gen, p plan, witnesses []Case) (*Outcome,
 		wg.Add(1)
 		go func(ch *chunk) {
 			defer wg.Done()
-			ch.vr, ch.err = ValidateTrace(g.U, p.maxSpell, encodeLines(lines[ch.from:ch.to]))
+			var buf bytes.Buffer
+			for _, b := range raw[ch.from:ch.to] {
+				buf.Write(b)
+				buf.WriteByte('\n')
+			}
+			ch.vr, ch.err = ValidateTrace(g.U, buf.Bytes())
 		}(ch)
 	}
 	wg.Wait()
@@ -385,34 +677,48 @@ func ReplayAndValidate(c *core.Ctx, g *Gen, p plan, witnesses []Case) (*Outcome,
 			}
 			n, _ := v[0].(float64)
 			m, _ := v[1].(string)
-			out.Findings = append(out.Findings, Finding{Monitor: m, Line: lines[ch.from+int(n)-1]})
+			i := ch.from + int(n) - 1
+			out.Findings = append(out.Findings, Finding{Monitor: m, Kind: kinds[i], Line: raw[i]})
 		}
 		for _, n := range ch.vr.Drift {
-			out.Drift = append(out.Drift, lines[ch.from+n-1])
+			out.Drift = append(out.Drift, raw[ch.from+n-1])
 		}
 	}
 	distinct := map[string]bool{}
 	for i, cs := range cases {
 		if len(cs.Exp) > 0 {
-			out.Stages[cs.Exp[0].Stage]++
+			out.Stages[cs.Stack+":"+cs.Exp[0].Stage]++
 		}
-		for _, ob := range lines[i].Obs[:1] {
+		for _, ob := range clines[i].Obs[:1] {
 			out.Effects[ob.Effect]++
 		}
 		if len(cs.Exp) > 0 && cs.Exp[0].Stage != "outer" {
-			distinct[fmt.Sprintf("%s %s %v %v", cs.M, cs.Target, cs.W, cs.H)] = true
+			distinct[cs.key()] = true
 		}
+	}
+	for _, h := range g.Hists {
+		distinct["hist|"+h.key()] = true
+	}
+	for _, h := range g.Concs {
+		distinct["conc|"+h.key()] = true
 	}
 	out.Nontriv = len(distinct)
-	for _, k := range []int{0, len(lines) / 3, 2 * len(lines) / 3} {
-		if k < len(lines) {
-			out.Samples = append(out.Samples, lines[k])
+	for _, k := range []int{0, len(clines) / 2} {
+		if k < len(clines) {
+			out.Samples = append(out.Samples, clines[k])
 		}
 	}
-	for _, l := range lines {
-		if l.Obs[0].Status == 403 && len(out.Samples) < 5 {
+	for _, l := range clines {
+		if l.Obs[0].Status == 403 {
 			out.Samples = append(out.Samples, l)
+			break
 		}
+	}
+	if len(hlines) > 0 {
+		out.Samples = append(out.Samples, hlines[len(hlines)/2])
+	}
+	if len(klines) > 0 {
+		out.Samples = append(out.Samples, klines[0])
 	}
 	return out, nil
 }
@@ -422,30 +728,38 @@ type ReplayFile struct {
 	Prop     string    `json:"prop"`
 	Seed     int64     `json:"seed"`
 	Reps     int       `json:"reps"`
-	MaxSpell int       `json:"max_spell"`
+	ConcMs   int64     `json:"conc_ms"`
 	Universe *Universe `json:"universe"`
 	Finding  Finding   `json:"finding"`
 }
 
 func matchKnown(known []core.Finding, f Finding) *core.Finding {
+	var cl CaseLine
+	json.Unmarshal(f.Line, &cl)
 	for i := range known {
 		m := known[i].Match
 		if mon, _ := m["monitor"].(string); mon != "" && mon != f.Monitor {
 			continue
 		}
-		if x, _ := m["m"].(string); x != "" && x != f.Line.M {
+		if x, _ := m["kind"].(string); x != "" && x != f.Kind {
 			continue
 		}
-		if x, _ := m["t"].(string); x != "" && x != f.Line.T {
+		if x, _ := m["stack"].(string); x != "" && x != cl.Stack {
 			continue
 		}
-		if x, _ := m["sps"].(string); x != "" && x != strings.Join(f.Line.Sps, ",") {
+		if x, _ := m["m"].(string); x != "" && x != cl.M {
 			continue
 		}
-		if x, ok := m["w"].(bool); ok && x != f.Line.W {
+		if x, _ := m["t"].(string); x != "" && x != cl.T {
 			continue
 		}
-		if x, _ := m["accept"].(string); x != "" && x != f.Line.H.Accept {
+		if x, _ := m["sps"].(string); x != "" && x != strings.Join(cl.Sps, ",") {
+			continue
+		}
+		if x, ok := m["w"].(bool); ok && x != cl.W {
+			continue
+		}
+		if x, _ := m["accept"].(string); x != "" && x != cl.H.Accept {
 			continue
 		}
 		return &known[i]
@@ -453,7 +767,7 @@ func matchKnown(known []core.Finding, f Finding) *core.Finding {
 	return nil
 }
 
-// witnessCases turns the witness of a known finding ({m,t,sps,w,target}) into cases.
+// witnessCases turns the witness of a known finding ({m,t,sps,w,target,...}) into cases.
 func witnessCases(kf core.Finding) []Case {
 	var out []Case
 	for _, raw := range kf.Witness {
@@ -463,6 +777,41 @@ func witnessCases(kf core.Finding) []Case {
 		}
 	}
 	return out
+}
+
+func describe(f Finding) string {
+	rq := func(r Req) string {
+		s := fmt.Sprintf("%s %s", r.M, r.Target)
+		if r.H != DefaultHdr {
+			s += fmt.Sprintf(" (Accept %q, Content-Type %q, X-HTTP-Method-Override %q, body %v)", r.H.Accept, r.H.Ctype, r.H.Override, r.H.Body)
+		}
+		return s
+	}
+	switch f.Kind {
+	case "hist":
+		var l HistLine
+		json.Unmarshal(f.Line, &l)
+		var parts []string
+		for i, r := range l.Reqs {
+			ob, _ := json.Marshal(l.Obs[i])
+			rf, _ := json.Marshal(l.Ref[i])
+			parts = append(parts, fmt.Sprintf("%d. %s -> %s (alone on a fresh instance: %s)", i+1, rq(r), ob, rf))
+		}
+		return fmt.Sprintf("monitor %s failed on a history served by ONE %s instance with write operations %s: %s", f.Monitor, l.Stack, onOff(l.W), strings.Join(parts, "; "))
+	case "conc":
+		var l ConcLine
+		json.Unmarshal(f.Line, &l)
+		o0, _ := json.Marshal(l.Obs[0])
+		o1, _ := json.Marshal(l.Obs[1])
+		return fmt.Sprintf("monitor %s failed while ONE %s instance with write operations %s served concurrently %s x%d -> %s and %s x%d -> %s; effects seen on the instance: %v",
+			f.Monitor, l.Stack, onOff(l.W), rq(l.Reqs[0]), l.N[0], o0, rq(l.Reqs[1]), l.N[1], o1, l.Eff)
+	default:
+		var l CaseLine
+		json.Unmarshal(f.Line, &l)
+		ob, _ := json.Marshal(l.Obs)
+		return fmt.Sprintf("monitor %s failed: %s on the %s stack with write operations %s (template %s, spelling %v) observed %s",
+			f.Monitor, rq(l.Req), l.Stack, onOff(l.W), l.T, l.Sps, ob)
+	}
 }
 
 // Check runs the check of C18.
@@ -488,37 +837,34 @@ func Check(c *core.Ctx) int {
 			c.Logf("note: %s", n)
 		}
 		notes = append(notes, u.Notes...)
-		c.Logf("universe %d: %d templates, %d operations in oapi.yaml, %d embedded; TLC over the request domain (spelling sequences <= %d)",
-			ui, len(u.Templates), len(u.DocOps), len(u.EmbOps), p.maxSpell)
-		g, err := Generate(c, u, p.maxSpell, p.hdr)
+		c.Logf("universe %d: %d templates, %d operations in oapi.yaml, %d embedded; stacks %v, spelling sequences <= %d, headers %v, histories depth %d over %v on %v, concurrency %v on %v",
+			ui, len(u.Templates), len(u.DocOps), len(u.EmbOps), p.stacks, p.maxSpell, p.hdr, p.histDepth, p.histSpellings, p.histStacks, p.concW, p.concStacks)
+		g, err := Generate(c, u, p)
 		if err != nil {
 			fmt.Println("INCONCLUSIVE:", err)
 			return core.ExitInconclusive
 		}
-		c.Logf("universe %d: TLC %d states (%d distinct), %d cases, specviol=%q (%.1fs)", ui, g.States, g.Distinct, len(g.Cases), g.SpecViol, g.Wall)
-		if g.SpecViol != "" {
-			specLeads = append(specLeads, g.SpecViol)
-		}
+		c.Logf("universe %d: TLC %d states (%d distinct): %d cases, %d histories, %d concurrent pairs, specviol=%q (%.1fs)", ui, g.States, g.Distinct, len(g.Cases), len(g.Hists), len(g.Concs), g.SpecViol, g.Wall)
+		specLeads = append(specLeads, g.SpecViol...)
 		var wit []Case
 		for _, kf := range known {
 			wit = append(wit, witnessCases(kf)...)
 		}
-		out, err := ReplayAndValidate(c, g, p, wit)
+		out, err := ReplayAndValidate(c, g, wit)
 		if err != nil {
 			fmt.Println("INCONCLUSIVE:", err)
 			return core.ExitInconclusive
 		}
 		outs = append(outs, out)
-		c.Logf("universe %d: %d requests served by the real router (%.1fs), %d trace lines validated in %d TLC runs (%.1fs), %d findings, %d drift; stages %v effects %v",
-			ui, out.Requests, out.ReplayS, out.Lines, out.Traces, out.ValidateS, len(out.Findings), len(out.Drift), out.Stages, out.Effects)
+		c.Logf("universe %d: %d requests served by real router instances (%.1fs) %v, %d trace lines validated in %d TLC runs (%.1fs), %d findings, %d drift; stages %v effects %v",
+			ui, out.Requests, out.ReplayS, out.Kinds, out.Lines, out.Traces, out.ValidateS, len(out.Findings), len(out.Drift), out.Stages, out.Effects)
 		if out.Requests == 0 || out.Lines == 0 {
 			fmt.Println("INCONCLUSIVE: nothing replayed")
 			return core.ExitInconclusive
 		}
 		for i, dl := range out.Drift {
 			if i < 10 {
-				b, _ := json.Marshal(dl)
-				fmt.Printf("DRIFT property=%s (observed response is not one the code-shaped spec allows) %s\n", c.Prop, b)
+				fmt.Printf("DRIFT property=%s (observed response is not one the code-shaped spec allows) %s\n", c.Prop, dl)
 			}
 		}
 		for _, f := range out.Findings {
@@ -527,11 +873,9 @@ func Check(c *core.Ctx) int {
 				continue
 			}
 			violations++
-			if reported < 5 {
-				path := c.WriteReplay(fmt.Sprintf("u%d-%d", ui, reported), ReplayFile{Prop: c.Prop, Seed: c.Seed, Reps: p.reps, MaxSpell: p.maxSpell, Universe: u, Finding: f})
-				ob, _ := json.Marshal(f.Line.Obs)
-				c.Violation(path, fmt.Sprintf("monitor %s failed: %s %s with write operations %s (template %s, spelling %v, Accept %q, Content-Type %q, X-HTTP-Method-Override %q, body %v) observed %s",
-					f.Monitor, f.Line.M, f.Line.Target, onOff(f.Line.W), f.Line.T, f.Line.Sps, f.Line.H.Accept, f.Line.H.Ctype, f.Line.H.Override, f.Line.H.Body, ob))
+			if reported < 6 {
+				path := c.WriteReplay(fmt.Sprintf("u%d-%d", ui, reported), ReplayFile{Prop: c.Prop, Seed: c.Seed, Reps: p.reps, ConcMs: p.concDur.Milliseconds(), Universe: u, Finding: f})
+				c.Violation(path, describe(f))
 				reported++
 			}
 		}
@@ -578,11 +922,15 @@ func writeEvidence(c *core.Ctx, plans []plan, outs []*Outcome, violations int, s
 		if len(samples) < 6 {
 			samples = append(samples, o.Samples...)
 		}
+		p := plans[i]
 		unis = append(unis, map[string]any{
-			"tlc_distinct_states": o.Gen.Distinct, "tlc_states_generated": o.Gen.States, "tlc_wall_s": o.Gen.Wall,
-			"cases": len(o.Gen.Cases), "requests": o.Requests, "deciding_stage_histogram": o.Stages, "observed_effect_histogram": o.Effects,
+			"tlc_runs": o.Gen.Runs, "tlc_distinct_states": o.Gen.Distinct, "tlc_states_generated": o.Gen.States, "tlc_wall_s": o.Gen.Wall,
+			"cases": len(o.Gen.Cases), "histories": len(o.Gen.Hists), "concurrent_pairs": len(o.Gen.Concs), "lines_and_requests_by_kind": o.Kinds,
+			"requests": o.Requests, "deciding_stage_histogram": o.Stages, "observed_effect_histogram": o.Effects,
 			"param_values": o.Gen.U.ParamVal, "templates": len(o.Gen.U.Templates), "replay_s": o.ReplayS, "validate_s": o.ValidateS,
-			"max_spelling_sequence": plans[i].maxSpell, "repetitions": plans[i].reps, "header_classes_crossed": plans[i].hdr,
+			"stacks": p.stacks, "max_spelling_sequence": p.maxSpell, "repetitions": p.reps, "header_classes_crossed": p.hdr,
+			"history_depth": p.histDepth, "history_spellings": p.histSpellings, "history_stacks": p.histStacks,
+			"concurrency_settings": p.concW, "concurrency_all_pairs": p.concAll, "concurrency_stacks": p.concStacks, "concurrency_ms_per_pair": p.concDur.Milliseconds(),
 		})
 	}
 	if len(samples) == 0 {
@@ -597,11 +945,13 @@ func writeEvidence(c *core.Ctx, plans []plan, outs []*Outcome, violations int, s
 	cov := map[string]any{
 		"states": states, "transitions": trans, "traces_validated_against_impl": traces,
 		"samples": samples, "evaluations": reqs, "distinct_nontrivial": nontriv, "exhaustive": true,
-		"rule": "TLC enumerates Methods x (paths of oapi.yaml and of the embedded document + unknown) x spelling sequences x {write on, off} with default headers, plus " +
-			"Methods x paths (documented spelling) x header classes (5 Accept x 4 Content-Type x X-HTTP-Method-Override absent/POST x body present/absent) x {write on, off}, and walks the " +
-			"pipeline stages of the code-shaped spec; every case is sent reps times (each repetition to another server instance) to the real router; " +
-			"evaluations = HTTP requests served; distinct_nontrivial = distinct (method, target, header class, setting) whose request gets past the outer router to the API sub-router " +
-			"(validator / ConfigMiddleware / generated handlers); every case line is validated by HttpGateTrace (pass A monitors, pass B conformance)",
+		"rule": "TLC enumerates (a) Methods x (paths of oapi.yaml and of the embedded document + unknown) x spelling sequences x {write on, off} x stacks with default headers, plus " +
+			"Methods x paths (documented spelling) x header classes (5 Accept x 4 Content-Type x X-HTTP-Method-Override absent/POST x body present/absent) x {write on, off} x stacks, walking the " +
+			"pipeline stages of the code-shaped spec; (b) every sequence of history_depth requests (Methods x paths x history_spellings) on one instance; (c) every interleaving of the stages of two " +
+			"requests in flight (write operation x read-only operation). Every single-request case is sent reps times (each repetition to another instance), every history to ONE fresh instance, " +
+			"every concurrent pair is hammered at ONE fresh instance by 4+4 goroutines for concurrency_ms_per_pair (goroutine interleavings are SAMPLED, not enumerated). " +
+			"evaluations = HTTP requests served; distinct_nontrivial = distinct single-request cases that get past the outer router + distinct histories + distinct concurrent pairs; " +
+			"every line is validated by HttpGateTrace (pass A monitors, pass B conformance)",
 		"methods": Methods, "spellings": Spellings,
 		"universes": unis, "trace_lines_validated": lines, "drift_lines": drift,
 		"spec_level_counterexamples": specLeads, "known_finding_hits": knownHits, "notes": notes,
@@ -614,6 +964,8 @@ func writeEvidence(c *core.Ctx, plans []plan, outs []*Outcome, violations int, s
 			"effects are observed on the hooked trigger / shutdown channels, on a Postgres wire endpoint that records the statements and on the pong body; " +
 				"an operation without such an observer is recognised by an answer that no stage in front of the handlers gives",
 			"headers are covered by the classes named in specs/HttpGate.tla (Accept, Content-Type, X-HTTP-Method-Override, body present/absent, also on GET), crossed with the documented spelling only; a body that is sent is always a valid DecryptionTrigger; cookies and other headers are not varied",
+			"stack 'gate' is composed by the harness from the repository's exported parts (kproapi.ConfigMiddleware + kproapi.HandlerFromMux on the real kprapi.Server, mounted like setupRouter does) without the request validator",
+			"concurrency: the interleavings of the stages of two requests are enumerated on the specification; on the real code they are sampled by a bounded stress run per pair",
 		},
 		WallS: time.Since(c.Start).Seconds(), Violations: violations,
 	})
@@ -622,7 +974,7 @@ func writeEvidence(c *core.Ctx, plans []plan, outs []*Outcome, violations int, s
 	}
 }
 
-// Replay re-sends the case of a replay file and validates it again.
+// Replay re-runs the line of a replay file on fresh instances and validates it again.
 func Replay(c *core.Ctx) int {
 	b, err := os.ReadFile(c.Replay)
 	if err != nil {
@@ -634,23 +986,50 @@ func Replay(c *core.Ctx) int {
 		fmt.Println("INCONCLUSIVE: unreadable replay file", err)
 		return core.ExitInconclusive
 	}
-	l := rf.Finding.Line
-	cs := Case{M: l.M, T: l.T, Sps: l.Sps, W: l.W, H: l.H, Target: l.Target}
 	if rf.Reps < 1 {
 		rf.Reps = 3
 	}
-	lines, _, err := runCases([]Case{cs}, rf.Universe.Body, rf.Reps, 1)
+	var line any
+	switch rf.Finding.Kind {
+	case "hist":
+		var l HistLine
+		json.Unmarshal(rf.Finding.Line, &l)
+		ls, _, err := runHists([]Multi{{W: l.W, Stack: l.Stack, Reqs: l.Reqs}}, rf.Universe.Body, 1)
+		if err != nil {
+			fmt.Println("INCONCLUSIVE:", err)
+			return core.ExitInconclusive
+		}
+		line = ls[0]
+	case "conc":
+		var l ConcLine
+		json.Unmarshal(rf.Finding.Line, &l)
+		d := time.Duration(rf.ConcMs) * time.Millisecond
+		if d < 3*time.Second {
+			d = 3 * time.Second
+		}
+		ls, _, err := runConcs([]Multi{{W: l.W, Stack: l.Stack, Reqs: l.Reqs}}, rf.Universe.Body, d, 8)
+		if err != nil {
+			fmt.Println("INCONCLUSIVE:", err)
+			return core.ExitInconclusive
+		}
+		line = ls[0]
+	default:
+		var l CaseLine
+		json.Unmarshal(rf.Finding.Line, &l)
+		ls, _, err := runCases([]Case{{Req: l.Req, W: l.W, Stack: l.Stack}}, rf.Universe.Body, rf.Reps, 1)
+		if err != nil {
+			fmt.Println("INCONCLUSIVE:", err)
+			return core.ExitInconclusive
+		}
+		line = ls[0]
+	}
+	trace, _ := json.Marshal(line)
+	vr, err := ValidateTrace(rf.Universe, trace)
 	if err != nil {
 		fmt.Println("INCONCLUSIVE:", err)
 		return core.ExitInconclusive
 	}
-	trace := encodeLines(lines)
-	vr, err := ValidateTrace(rf.Universe, rf.MaxSpell, trace)
-	if err != nil {
-		fmt.Println("INCONCLUSIVE:", err)
-		return core.ExitInconclusive
-	}
-	os.Stdout.Write(trace)
+	fmt.Println(string(trace))
 	fmt.Printf("viol=%v drift=%v\n", vr.Viol, vr.Drift)
 	for _, v := range vr.Viol {
 		if len(v) == 2 && v[1] == rf.Finding.Monitor {
